@@ -139,6 +139,22 @@ def subtree_histories():
                  {"op": "rename", "name": d, "name2": e}, {"op": "chmod", "name": e + "/data.txt", "perm": 0o600}, {"op": "removeall", "name": e + "/d"}]
         hs.append({"config": {"rs": [20, 3, 1][k % 3], "cache": "file"}, "blobs": [{"seed": 1, "len": 700}, {"seed": 2, "len": 10}], "obs": FS_OBS, "calls": calls, "_scenario": "repeated-name:" + d})
         k += 1
+    # creating through OpenFile(O_CREATE) below a directory, then moving that directory (or an ancestor) away, then creating
+    # below the old name again: must be refused (not-exist, or is-a-file when a file took the name)
+    WC = 0o100 | 1
+    for variant in range(3):
+        calls = [{"op": "initialize"}, {"op": "mkdir", "name": "/d", "perm": 0o755}, {"op": "mkdir", "name": "/d/sub", "perm": 0o755},
+                 {"op": "writefile", "name": "/d/sub/a", "flags": WC, "perm": 0o644, "blob": 1}]
+        if variant == 0:
+            calls += [{"op": "rename", "name": "/d/sub", "name2": "/d/moved"}]
+        elif variant == 1:
+            calls += [{"op": "rename", "name": "/d", "name2": "/e"}]
+        else:
+            calls += [{"op": "rename", "name": "/d/sub", "name2": "/d/moved"}, {"op": "createfile", "name": "/d/sub", "blob": 1}]
+        calls += [{"op": "writefile", "name": "/d/sub/b", "flags": WC, "perm": 0o644, "blob": 0}, {"op": "writefile", "name": "/d/sub/a", "flags": WC, "perm": 0o644, "blob": 0},
+                  {"op": "mkdir", "name": "/after", "perm": 0o755}]
+        hs.append({"config": {"rs": [20, 3, 1][k % 3], "cache": "file"}, "blobs": [{"seed": 1, "len": 700}, {"seed": 2, "len": 10}], "obs": FS_OBS, "calls": calls, "_scenario": "create-below-moved-parent:%d" % variant})
+        k += 1
     return hs
 
 
